@@ -170,6 +170,8 @@ def main(argv=None):
             if not counters.get(key):
                 reason = "deciding monitor counter %r is zero" % key
                 break
+    if not reason and not samples:
+        reason = "no sample of an explored case was recorded"
     if reason:
         coverage["inconclusive_reason"] = reason
     # evidence must validate even when inconclusive
